@@ -209,6 +209,50 @@ def _open_sites(prog, cg, reach):
     return out
 
 
+def guarded_opens(prog, cg, eff, chk, rid, roots):
+    """Every ATTACH / sqlite::database{path} open reachable from `roots` sits behind an existence
+    test of the very path it opens (symbolic path equality).  Shared with C13: a loader that probes
+    one path and opens another both misreports what is there and creates the file it opens."""
+    es, reach = eff.transitive(roots)
+    n = 0
+    for e in es:
+        if e.cls != 'attach':
+            continue
+        n += 1
+        loc = e.loc
+        if not e.site.binds:
+            chk.violation(rid, '%s|attach literal' % e.func.qualname, loc,
+                          'ATTACH of a literal target on a load path: %s' % e.stmt.text())
+            continue
+        sp = _sym_path(prog, e.func, e.site.binds[0])
+        guards = _existence_guards(prog, e.func, e.site.node)
+        inst = '%s: %s of %s' % (e.func.qualname, e.stmt.text(), _show_path(sp))
+        if sp is not None and sp in guards:
+            chk.ok(rid, inst + ' behind an existence test of the same path', loc)
+        else:
+            chk.violation(rid, '%s|attach %s' % (e.func.qualname.split('::')[-1], _show_path(sp)), loc,
+                          '%s: the existence test before it probes %s, not this path: what the loader reports '
+                          'as present is not what it opens (and attaching a missing file creates it)' % (
+                              inst, [_show_path(g) for g in guards]))
+    for f, node, arg in _open_sites(prog, cg, reach):
+        sp = _sym_path(prog, f, arg)
+        loc = locstr(node)
+        inst = '%s opens sqlite::database{%s}' % (f.qualname, _show_path(sp))
+        n += 1
+        if sp == (':memory:',):
+            chk.ok(rid, inst + ' (in-memory)', loc)
+            continue
+        guards = _existence_guards(prog, f, node)
+        if sp is not None and sp in guards:
+            chk.ok(rid, inst + ' behind an existence test of the same path', loc)
+        else:
+            chk.violation(rid, '%s|open %s' % (f.qualname.split('::')[-1], _show_path(sp)), loc,
+                          '%s: the existence test before it probes %s, not this path: a directory without that '
+                          'file is reported as a library (and the open creates the file)' % (
+                              inst, [_show_path(g) for g in guards]))
+    return n
+
+
 def run(tier='quick'):
     prog = program.load()
     cg = callgraph.get(prog)
